@@ -363,8 +363,10 @@ var goroutineBase = 1
 var gorHeader = regexp.MustCompile(`(?m)^goroutine (\d+) \[([^\],]+)`)
 
 // goroutineStates maps goroutine id to its scheduler state.
+var stackBuf = make([]byte, 1<<20)
+
 func goroutineStates() map[string]string {
-	buf := make([]byte, 1<<20)
+	buf := stackBuf
 	n := runtime.Stack(buf, true)
 	res := map[string]string{}
 	for _, m := range gorHeader.FindAllSubmatch(buf[:n], -1) {
